@@ -105,6 +105,14 @@ fn part_a(rep: &Report) {
                     }
                     Err(e) => rep.violation("library decoder rejects its own header", detail(&e.to_string(), &bytes)),
                 }
+                // the entry point that brings a cache of its own for one frame (every reference of these frames is a new entry)
+                match erltf::decoder::decode_with_cache(&bytes) {
+                    Ok((c, p)) => {
+                        let ok = exact_eq(&denote(&c), &denote(&control)) && match (&p, &payload) { (Some((a, rest)), Some(b)) => exact_eq(&denote(a), &denote(b)) && rest.is_empty(), (None, None) => true, _ => false };
+                        if !ok { rep.violation("library decoder reads its own header back differently", detail("decode_with_cache differs", &bytes)); }
+                    }
+                    Err(e) => rep.violation("library decoder rejects its own header", detail(&format!("decode_with_cache: {}", e), &bytes)),
+                }
             }
         }
     });
